@@ -152,7 +152,10 @@ SAVGOL_X = {
     "uniform": [0, 1, 2, 3, 4, 5, 6, 7, 8, 9],
     "irregular": [0.0, 0.4, 1.5, 1.9, 3.0, 4.2, 4.5, 6.1, 7.0, 8.8, 9.1],
     "clustered": [0.0, 0.1, 0.2, 2.0, 2.1, 5.0, 5.5, 5.6, 9.0, 9.5],
+    # nearly regular sampling (timestamps with a little jitter): consecutive windows have almost, but not exactly, the same local abscissae
+    "jittered": [0.0, 1.000002, 2.000001, 2.999997, 4.000003, 5.0, 5.999998, 7.000002, 8.000001, 9.0, 10.000003, 10.999999],
 }
+SAVGOL_TOL = 1e-9      # relative to max(1, |x|^k); the working tree reaches 3e-12 at worst on these patterns
 
 
 def case_savgol(ctx, pattern, window, order):
@@ -173,7 +176,7 @@ def case_savgol(ctx, pattern, window, order):
         d = out[i] - ys[i]
         # d is linear in the symbolic coefficients: every coefficient of the error must vanish up to float rounding
         if not isinstance(d, core.Sym):
-            ctx.oblige("savgol_reproduces_polynomials_up_to_its_order", abs(float(d)) <= 1e-6, detail={"i": i})
+            ctx.oblige("savgol_reproduces_polynomials_up_to_its_order", abs(float(d)) <= SAVGOL_TOL, detail={"i": i})
             continue
         errs = []
         for k in range(order + 1):
@@ -181,7 +184,7 @@ def case_savgol(ctx, pattern, window, order):
             v = z3.simplify(z3.substitute(d.t, *sub))
             errs.append(abs(float(v.numerator_as_long()) / float(v.denominator_as_long())) if z3.is_rational_value(v) else None)
         scale = [max(1.0, float(abs(x[i]) ** k)) for k in range(order + 1)]
-        ctx.oblige("savgol_reproduces_polynomials_up_to_its_order", all(e is not None and e <= 1e-6 * sc * 100 for e, sc in zip(errs, scale)), detail={"i": i, "errors": errs})
+        ctx.oblige("savgol_reproduces_polynomials_up_to_its_order", all(e is not None and e <= SAVGOL_TOL * sc for e, sc in zip(errs, scale)), detail={"i": i, "errors": errs})
 
 
 def cases(tier):
@@ -285,7 +288,7 @@ bad = []
 for k in range(o + 1):
     y = x ** k
     out = sm.non_uniform_savgol(x, y, w, o)
-    if out.shape != y.shape or not np.allclose(out, y, rtol=1e-6, atol=1e-6): bad.append((k, float(np.max(np.abs(out - y)))))
+    if out.shape != y.shape or np.max(np.abs(out - y) / np.maximum(1, np.abs(x) ** k)) > {SAVGOL_TOL!r}: bad.append((k, float(np.max(np.abs(out - y)))))
 print(bad)
 if bad: reproduced(f'non_uniform_savgol(window={{w}}, order={{o}}) does not reproduce x^k on pattern {params['pattern']}: {{bad}}')
 not_reproduced()
